@@ -26,8 +26,8 @@ def zone(name):
 
 
 @contextmanager
-def frozen(zone_name, y, mo, d, h=12, mi=0, s=0, fold=0):
-    dest = dt.datetime(y, mo, d, h, mi, s, tzinfo=zone(zone_name), fold=fold)
+def frozen(zone_name, y, mo, d, h=12, mi=0, s=0, fold=0, micro=0):
+    dest = dt.datetime(y, mo, d, h, mi, s, micro, tzinfo=zone(zone_name), fold=fold)
     with time_machine.travel(dest, tick=False):
         yield dest
 
@@ -74,3 +74,21 @@ def candidates(zone_name, date, hh, mm):
 
 def wall(zone_name, epoch):
     return dt.datetime.fromtimestamp(epoch, zone(zone_name))
+
+
+@functools.lru_cache(maxsize=None)
+def transition_epochs(zone_name, y0=2022, y1=2027):
+    """Epoch seconds within +-2 h (15 min steps) of every UTC-offset change of the zone: the repeated / skipped hours."""
+    z = zone(zone_name)
+    out = []
+    for day in transition_days(zone_name):
+        if not (y0 <= day.year <= y1):
+            continue
+        lo = int(dt.datetime(day.year, day.month, day.day, tzinfo=UTC).timestamp()) - 14 * 3600
+        prev = dt.datetime.fromtimestamp(lo, z).utcoffset()
+        for t in range(lo, lo + 52 * 3600, 900):
+            off = dt.datetime.fromtimestamp(t, z).utcoffset()
+            if off != prev:
+                out.extend(range(t - 7200, t + 7201, 900))
+                prev = off
+    return sorted(set(out))
